@@ -1,0 +1,6 @@
+//go:build !verif
+
+package cache
+
+// verifYield is a no-op outside of builds with the verif tag (see verif_yield_on.go).
+func verifYield(string) {}
